@@ -124,19 +124,34 @@ theorem default_replacement_order :
        ("$1".toList, .none)] := by
   decide +kernel
 
-/-- Concrete terms (kernel evaluation on the generated tables): every quote kind, nesting by differing delimiter,
-    the replacement forms, isolated specials, an earlier construct protecting its content from later ones. -/
-example :
-    let run (src : String) := match (apiRender ⟨fun _ _ => .error⟩ 40 src.toList {}).run Session.uninit with
-      | .ok (h, _) => h | .error _ => "ERROR".toList
-    (run "x *a* **b** _c_ __d__ `e` ``f`` ~~g~~" ==
-       "<p>x <em>a</em> <strong>b</strong> <em>c</em> <strong>d</strong> <code>e</code> <code>f</code> <del>g</del></p>".toList &&
-     run "x *a _b `c-d` e_ f* < & >" == "<p>x <em>a <em>b <code>c-d</code> e</em> f</em> &lt; &amp; &gt;</p>".toList &&
-     run "x <http://a.com/|*cap* it> [c](http://b.org/) ^[d](http://c.net/) <http://e.f/> http://g.h/i &copy;" ==
-       "<p>x <a href=\"http://a.com/\"><em>cap</em> it</a> <a href=\"http://b.org/\">c</a> <a href=\"http://c.net/\" target=\"_blank\">d</a> <a href=\"http://e.f/\">http://e.f/</a> <a href=\"http://g.h/i\">http://g.h/i</a> &copy;</p>".toList &&
-     run "x <image:u.png|alt t> ![a b](v.png) <joe@foo.com> <joe@foo.com|J> y \\\nz" ==
-       "<p>x <img src=\"u.png\" alt=\"alt t\"> <img src=\"v.png\" alt=\"a b\"> <a href=\"mailto:joe@foo.com\">joe@foo.com</a> <a href=\"mailto:joe@foo.com\">J</a> y<br>\nz</p>".toList &&
-     run "x [*not em*](http://a_b_c.com/*y*)" == "<p>x <a href=\"http://a_b_c.com/*y*\"><em>not em</em></a></p>".toList) = true := by
+/-- rendering a paragraph from a fresh process, for the kernel-evaluated instances below -/
+def runPara (src : String) : Str :=
+  match (apiRender ⟨fun _ _ => .error⟩ 40 src.toList {}).run Session.uninit with
+  | .ok (h, _) => h
+  | .error _ => "ERROR".toList
+
+/-! Concrete terms (kernel evaluation on the generated tables; one instance per declaration keeps the memory of the
+    kernel evaluation low): every quote kind, nesting by differing delimiter, the replacement forms, isolated specials,
+    an earlier construct protecting its content from later ones. -/
+
+example : (runPara "x *a* **b** _c_ __d__ `e` ``f`` ~~g~~" ==
+    "<p>x <em>a</em> <strong>b</strong> <em>c</em> <strong>d</strong> <code>e</code> <code>f</code> <del>g</del></p>".toList) = true := by
+  decide +kernel
+
+example : (runPara "x *a _b `c-d` e_ f* < & >" ==
+    "<p>x <em>a <em>b <code>c-d</code> e</em> f</em> &lt; &amp; &gt;</p>".toList) = true := by
+  decide +kernel
+
+example : (runPara "x <http://a.com/|*cap* it> [c](http://b.org/) ^[d](http://c.net/) <http://e.f/> http://g.h/i &copy;" ==
+    "<p>x <a href=\"http://a.com/\"><em>cap</em> it</a> <a href=\"http://b.org/\">c</a> <a href=\"http://c.net/\" target=\"_blank\">d</a> <a href=\"http://e.f/\">http://e.f/</a> <a href=\"http://g.h/i\">http://g.h/i</a> &copy;</p>".toList) = true := by
+  decide +kernel
+
+example : (runPara "x <image:u.png|alt t> ![a b](v.png) <joe@foo.com> <joe@foo.com|J> y \\\nz" ==
+    "<p>x <img src=\"u.png\" alt=\"alt t\"> <img src=\"v.png\" alt=\"a b\"> <a href=\"mailto:joe@foo.com\">joe@foo.com</a> <a href=\"mailto:joe@foo.com\">J</a> y<br>\nz</p>".toList) = true := by
+  decide +kernel
+
+example : (runPara "x [*not em*](http://a_b_c.com/*y*)" ==
+    "<p>x <a href=\"http://a_b_c.com/*y*\"><em>not em</em></a></p>".toList) = true := by
   decide +kernel
 
 end Props.C07
